@@ -836,7 +836,7 @@ func (u *Unit) scanCallWrites(fr *frame, call *ssa.CallCommon, instr ssa.Value, 
 			}
 			return
 		}
-		ws.all, ws.why = true, "interface call "+call.Method.Name()
+		ws.setAll("interface call "+call.Method.Name(), nil)
 		return
 	}
 	switch callee := call.Value.(type) {
@@ -880,7 +880,7 @@ func (u *Unit) scanCallWrites(fr *frame, call *ssa.CallCommon, instr ssa.Value, 
 		u.scanContractWrites(c, ws, call.Signature(), nil)
 		return
 	}
-	ws.all, ws.why = true, "call through function value"
+	ws.setAll("call through function value", nil)
 }
 
 func (u *Unit) scanFuncWrites(fr *frame, callee *ssa.Function, ws *writeSet, depth int) {
@@ -890,7 +890,7 @@ func (u *Unit) scanFuncWrites(fr *frame, callee *ssa.Function, ws *writeSet, dep
 	}
 	if _, ok := externals[full]; ok {
 		if externalWrites[full] {
-			ws.all, ws.why = true, "external "+full
+			ws.setAll("external "+full, nil)
 		}
 		if wf, ok := externalWriteFams[full]; ok {
 			wf(u, callee, ws)
@@ -902,6 +902,10 @@ func (u *Unit) scanFuncWrites(fr *frame, callee *ssa.Function, ws *writeSet, dep
 	}
 	c := u.w.contractFor(callee)
 	if c != nil && !c.Inline {
+		if c.ModAll {
+			ws.setAll("contract of "+shortFuncName(callee)+" modifies *", callee)
+			return
+		}
 		u.scanContractWrites(c, ws, callee.Signature, nil)
 		return
 	}
@@ -911,7 +915,7 @@ func (u *Unit) scanFuncWrites(fr *frame, callee *ssa.Function, ws *writeSet, dep
 	}
 	if callee.Blocks == nil {
 		if !externalIsScalarPure(callee) && !externalReadonly[full] {
-			ws.all, ws.why = true, "external "+full
+			ws.setAll("external "+full, nil)
 		}
 		return
 	}
@@ -928,7 +932,7 @@ func (u *Unit) scanFuncWrites(fr *frame, callee *ssa.Function, ws *writeSet, dep
 	if u.w.isReadonly(callee) {
 		return
 	}
-	ws.all, ws.why = true, "call to "+shortFuncName(callee)
+	ws.setAll("call to "+shortFuncName(callee), callee)
 }
 
 // scanContractWritesAt: like scanContractWrites, but when every argument of the call is loop-invariant the
@@ -1053,7 +1057,7 @@ func (u *Unit) scanContractWritesAt(c *Contract, ws *writeSet, call *ssa.CallCom
 
 func (u *Unit) scanContractWrites(c *Contract, ws *writeSet, sig *types.Signature, recvT types.Type) {
 	if c.ModAll {
-		ws.all, ws.why = true, "contract modifies *"
+		ws.setAll("contract modifies *", nil)
 		return
 	}
 	if !c.Pure {
@@ -1064,7 +1068,7 @@ func (u *Unit) scanContractWrites(c *Contract, ws *writeSet, sig *types.Signatur
 		for _, m := range c.Modifies {
 			fams, ok := u.w.staticModFams(u, pk, c, m.Expr, sig, recvT)
 			if !ok {
-				ws.all, ws.why = true, "modifies clause not statically resolvable: "+m.Text
+				ws.setAll("modifies clause not statically resolvable: "+m.Text, nil)
 				return
 			}
 			for fam, sortv := range fams {
